@@ -43,4 +43,25 @@ func (m *machine) registerReplacements() {
 	} {
 		m.replace(name, repl)
 	}
+	// libp2p-pubsub's concrete types (Topic, Subscription, TopicEventHandler)
+	// cannot be stubbed through an interface: their methods are replaced by
+	// scripted stand-ins that live in the pubsubraw harness file itself.
+	rawPkg := repoModule + "/pubsub/pubsubraw"
+	const ps = "github.com/libp2p/go-libp2p-pubsub"
+	for name, repl := range map[string]string{
+		"(*" + ps + ".PubSub).Join":                     "verifRawJoin",
+		"(*" + ps + ".Topic).Publish":                   "verifRawPublish",
+		"(*" + ps + ".Topic).ListPeers":                 "verifRawListPeers",
+		"(*" + ps + ".Topic).EventHandler":              "verifRawEventHandler",
+		"(*" + ps + ".Topic).Subscribe":                 "verifRawSubscribe",
+		"(*" + ps + ".TopicEventHandler).NextPeerEvent": "verifRawNextPeerEvent",
+		"(*" + ps + ".TopicEventHandler).Cancel":        "verifRawHandlerCancel",
+		"(*" + ps + ".Subscription).Next":               "verifRawNext",
+		"(*" + ps + ".Subscription).Cancel":             "verifRawSubCancel",
+		ps + ".WithBufferSize":                          "verifRawWithBufferSize",
+	} {
+		if f := m.lookupFunc(rawPkg, repl); f != nil {
+			m.replacements[name] = f
+		}
+	}
 }
